@@ -83,6 +83,8 @@ func zStreamValue(kind int, tag string, shared *ZInner) interface{} {
 		return zSmall(tag)
 	case 1: // a short string with one arbitrary code point of any UTF-8 width
 		return string([]rune{'t', vScalar(tag), 'z'})
+	case 19: // field names that start with a capital outside ASCII
+		return &ZUnicodeNames{Ärger: "a", Ωhm: zSmall(tag), Normal: 4}
 	case 18: // two fields whose names are equal under case folding
 		return &ZFold{UserID: zSmall(tag), UserId: 7, Userid: "u"}
 	case 2:
@@ -157,6 +159,10 @@ func zStreamEq(kind int, a, b interface{}) bool {
 	case 17:
 		x, ok := b.(*ZEmpty)
 		return ok && x != nil
+	case 19:
+		x, ok := b.(*ZUnicodeNames)
+		w := a.(*ZUnicodeNames)
+		return ok && x != nil && x.Ärger == "a" && x.Ωhm == w.Ωhm && x.Normal == 4
 	case 18:
 		x, ok := b.(*ZFold)
 		w := a.(*ZFold)
@@ -216,7 +222,7 @@ func H_C06_stream() {
 		zSmallOneForm = true
 	}
 	shared := &ZInner{N: 42, S: "shared"}
-	tm, nm := vExtractAll(&ZOuter{P: &ZInner{}}, &ZEmpty{}, &ZFold{}, []int32{}, map[string]int32{"k": 1}, zManyClasses(19, 0, -1))
+	tm, nm := vExtractAll(&ZOuter{P: &ZInner{}}, &ZEmpty{}, &ZFold{}, &ZUnicodeNames{}, []int32{}, map[string]int32{"k": 1}, zManyClasses(19, 0, -1))
 	kinds := make([]int, n)
 	vals := make([]interface{}, n)
 	for i := range vals {
@@ -224,7 +230,7 @@ func H_C06_stream() {
 			// third value (thorough tier): the kinds that refer back to earlier messages or are referred to
 			kinds[i] = []int{0, 2, 4, 5, 13, 14}[vChoice("kind3", 6)]
 		} else {
-			kinds[i] = vChoice("kind", 19)
+			kinds[i] = vChoice("kind", 20)
 		}
 		vals[i] = zStreamValue(kinds[i], "v", shared)
 	}
@@ -310,4 +316,64 @@ func H_C06_stream() {
 			vAssert("same-value", zStreamEq(kinds[i], vals[i], got))
 		}
 	}
+}
+
+// H_C06_refused_value_leaves_stream_intact: a WriteObject that is refused without a single octet reaching the
+// stream (a value the format cannot carry, met before anything was written) leaves the stream as it was: the
+// values written before and after it - the later ones referring back to the earlier - are read back in order.
+func H_C06_refused_value_leaves_stream_intact() {
+	tm, nm := vExtractAll(&ZInner{}, &ZUnexp{}, []int32{})
+	x := &ZInner{N: zSmall("x"), S: "a"}
+	var bad interface{}
+	switch vChoice("bad", 5) {
+	case 0:
+		bad = &ZUnexp{A: 1, b: 2}
+	case 1:
+		bad = make(chan int)
+	case 2:
+		bad = func() {}
+	case 3:
+		bad = complex(1, 2)
+	case 4:
+		bad = uintptr(5)
+	}
+	w := &vBufWriter{}
+	viaSerializer := vChoice("api", 2) == 1
+	var e *Encoder
+	var s Serializer
+	if viaSerializer {
+		s = NewSerializer(tm, nm)
+		vAssert("w1", s.WriteTo(w, x) == nil)
+	} else {
+		e = NewEncoder(w, nm)
+		vAssert("w1", e.WriteObject(x) == nil)
+	}
+	before := len(w.b)
+	var err error
+	if viaSerializer {
+		err = s.Write(bad)
+	} else {
+		err = e.WriteObject(bad)
+	}
+	vAssert("refused", err != nil)
+	vAssume(len(w.b) == before) // the case at hand: nothing of the refused value reached the stream
+	y := &ZInner{N: 9, S: "b"}
+	if viaSerializer {
+		vAssert("w2", s.Write(y) == nil && s.Write(x) == nil && s.Write(y) == nil)
+	} else {
+		vAssert("w2", e.WriteObject(y) == nil && e.WriteObject(x) == nil && e.WriteObject(y) == nil)
+	}
+	d := NewDecoder(&vCountingReader{b: w.b}, tm)
+	o1, e1 := d.ReadObject()
+	o2, e2 := d.ReadObject()
+	o3, e3 := d.ReadObject()
+	o4, e4 := d.ReadObject()
+	vAssert("reads-noerr", e1 == nil && e2 == nil && e3 == nil && e4 == nil)
+	g1, ok1 := o1.(*ZInner)
+	g2, ok2 := o2.(*ZInner)
+	g3, ok3 := o3.(*ZInner)
+	g4, ok4 := o4.(*ZInner)
+	vAssert("types", ok1 && ok2 && ok3 && ok4)
+	vAssert("values", eqZInner(x, g1) && g2.N == 9 && g2.S == "b")
+	vAssert("back-references", g3 == g1 && g4 == g2)
 }
